@@ -30,12 +30,15 @@ func runC12P(m *Sim) {
 	defer w.Shutdown()
 	MaxTaskWait = 1 << 62
 	sleepUntilP(1700352000 + int64(m.C.Int("start-s", 900000)))
+	// Keyed, not drawn: background jobs reach the responders side by side.
+	kd := NewKeyed(m.C, "watttime-key")
 	w.WattTime = func(path string) (int, time.Duration) {
+		at := time.Since(m.Start).Nanoseconds()
 		d := time.Duration(0)
-		if m.C.Chance("slow", 1, 8) {
-			d = time.Duration(1+m.C.Int("slow-s", 30)) * time.Second
+		if kd.Chance(1, 8, "slow", path, at) {
+			d = time.Duration(1+kd.Int(30, "slow-s", path, at)) * time.Second
 		}
-		return m.C.Weighted("ext-fault", 8, 1, 1), d
+		return kd.Weighted([]int{8, 1, 1}, "ext-fault", path, at), d
 	}
 	n := w.AddServer("srv0", "temp-srv0", true)
 	n.Boot()
